@@ -16,11 +16,17 @@ def workloads(run, rt, quick):
         tables = gen.make_tables(rng, nrows=9, nulls=rng.choice([0.0, 0.2]))
         g = gen.ProgGen(rng, profile=rng.choice(["l1", "l2", "l3"]), max_steps=rng.randint(2, 6))
         prog = g.generate({"t0": list(tables["t0"].columns), "t1": list(tables["t1"].columns)})
+        if idx % 3 == 0:
+            # the user's frame in an arbitrary row order (from_pandas sorts a *copy*)
+            perm = list(range(len(tables["t0"])))
+            rng.shuffle(perm)
+            tables["t0"] = tables["t0"].iloc[perm]
+        fps = {t: graphs.fingerprint(x) for t, x in tables.items()}
         src = e2e.build_sources(tables, {"t0": ("npartitions", rng.choice([2, 3, 4])), "t1": ("npartitions", 2)}, rt)
         r = try_(lambda: gen.run_program(prog, src, True)[prog["result"]])
         if r[0] == "raise":
             continue
-        yield (gen.describe(prog), r[1], prog["ordered"], prog.get("labels", True), tables)
+        yield (gen.describe(prog) + (" [t0 rows permuted]" if idx % 3 == 0 else ""), r[1], prog["ordered"] and idx % 3 != 0, prog.get("labels", True), tables, fps)
     pdf = pd.DataFrame({"a": range(12), "b": [i % 3 for i in range(12)], "c": [float(i % 4) for i in range(12)]})
     df = rt.dx.from_pandas(pdf, npartitions=4)
     small = rt.dx.from_pandas(pdf.iloc[:4], npartitions=1)
@@ -43,9 +49,38 @@ def workloads(run, rt, quick):
         "fillna+astype": df.astype({"a": "float64"}).fillna(0) + 1,
         "series rename": (df.a.rename("q") + df.b).to_frame(),
     }
+    fps = {"pdf": graphs.fingerprint(pdf)}
     for tag, coll in special.items():
         yield ("special:" + tag, coll, tag not in ("shuffle tasks", "shuffle disk", "merge hash", "merge broadcast", "groupby agg", "groupby apply", "sort_values", "drop_duplicates"),
-               tag not in ("merge hash", "merge broadcast", "rename + index name", "drop_duplicates"), {"pdf": pdf})
+               tag not in ("merge hash", "merge broadcast", "rename + index name", "drop_duplicates"), {"pdf": pdf}, fps)
+    # sources handed over in every shape from_pandas / from_array / from_dict / repartition accept: the caller's object stays as it was
+    import numpy as np
+    order = [7, 2, 9, 0, 5, 11, 3, 8, 1, 10, 6, 4]
+    users = {
+        "frame with unsorted index": lambda: pdf.iloc[order],
+        "frame with unsorted index and duplicates": lambda: pdf.iloc[order].set_axis([i % 5 for i in order], axis=0),
+        "series with unsorted index": lambda: pdf.iloc[order].a,
+        "frame with descending index": lambda: pdf.iloc[::-1],
+        "frame with unsorted string index": lambda: pdf.set_axis(["k%02d" % i for i in order], axis=0),
+    }
+    for tag, mk in users.items():
+        for sort in (True, False):
+            for npart in (1, 3):
+                obj = mk().copy()
+                fp = {"user object": graphs.fingerprint(obj)}
+                coll = try_(lambda: rt.dx.from_pandas(obj, npartitions=npart, sort=sort))
+                if coll[0] == "raise":
+                    continue
+                q = coll[1] + 1 if tag.startswith("frame") else coll[1] * 2
+                yield ("user source: %s sort=%s npartitions=%d" % (tag, sort, npart), q, False, True, {"user object": obj}, fp)
+    arr = np.arange(24.0).reshape(12, 2)
+    fp = {"array": graphs.fingerprint(arr)}
+    yield ("user source: numpy array", rt.dx.from_array(arr, chunksize=5, columns=["p", "q"]) * 2, True, True, {"array": arr}, fp)
+    obj = pdf.iloc[order].copy()
+    fp = {"user object": graphs.fingerprint(obj)}
+    r = try_(lambda: rt.dx.repartition(obj, divisions=[0, 4, 11]))
+    if r[0] == "ok":
+        yield ("user source: repartition(pandas frame with unsorted index, divisions)", r[1] + 1, False, True, {"user object": obj}, fp)
 
 
 def run(run):
@@ -63,7 +98,7 @@ def run(run):
     K = 4 if quick else 12
     n = 0
     shared_graphs = 0
-    for tag, coll, ordered, labels, tables in workloads(run, rt, quick):
+    for tag, coll, ordered, labels, tables, src_fp in workloads(run, rt, quick):
         e = try_(lambda: coll.optimize(fuse=(n % 2 == 0)).expr)
         if e[0] == "raise":
             continue
@@ -79,7 +114,6 @@ def run(run):
         shared = any(v >= 2 for v in consumers.values())
         shared_graphs += shared
         run.count(("workload", tag), nontrivial=shared)
-        src_fp = {t: graphs.fingerprint(x) for t, x in tables.items()}
         disk = "disk" in tag or "'method': 'disk'" in tag
         ref = None
         rng = random.Random(run.seed + n)
